@@ -10,7 +10,7 @@ SHARD = 25000
 
 def numeric(prop, src, build='asan', nq=20000, nt=1000000, groups_q=None, groups_t=None, float_groups=None,
             rule='', assumptions=(), level='exploration', timeout_q=900, timeout_t=7200, extra_defs=(), float_n_scale=1.0,
-            extra_bins=None, shard=SHARD, n_scale=None, post=None, min_shards=1):
+            extra_bins=None, shard=SHARD, n_scale=None, post=None, min_shards=1, extra_jobs=None):
     gq = groups_q if groups_q is not None else CORE + ['R1', 'R9'] + BUNDLES_Q
     gt = groups_t if groups_t is not None else CORE + ['R1', 'R9'] + BUNDLES_T
     fg = float_groups if float_groups is not None else CORE
@@ -37,19 +37,20 @@ def numeric(prop, src, build='asan', nq=20000, nt=1000000, groups_q=None, groups
         n = nq if tier == 'quick' else nt
         jobs = []
         for b in bs:
-            if not b.path: continue
+            if not b.path or len(b.defs) < 2: continue
             nn = n
             if 'MS=float' in b.defs: nn = int(n * float_n_scale)
             if n_scale: nn = max(1, int(nn * n_scale.get(b.defs[0][3:], 1.0)))
             k = max(min_shards, (nn + shard - 1) // shard)
             for sidx in range(k):
                 jobs.append({'bin': b, 'n': max(2, min(shard, nn - sidx * shard) if k == (nn + shard - 1) // shard else nn // k), 'seed': seed * 1000 + sidx, 'tag': '/'.join(d.split('=')[1] for d in b.defs[:2])})
+        if extra_jobs: jobs += extra_jobs(tier, seed, bs)
         fold, f2 = run_sharded(p, tier, seed, jobs, timeout_q if tier == 'quick' else timeout_t)
         if f2: fail = (fail or '') + f2
         if post: post(fold)
         spec = {'rule': rule, 'assumptions': list(assumptions), 'level': level}
         return finish(p, tier, seed, fold, spec, t0, harness_fail=fail,
-                      extra_cov={'groups': sorted(set(b.defs[0][3:] + '/' + b.defs[1][3:] for b in bs)), 'build': build, 'compile_s': round(dt, 1),
+                      extra_cov={'groups': sorted(set(b.defs[0][3:] + '/' + b.defs[1][3:] for b in bs if len(b.defs) >= 2)), 'build': build, 'compile_s': round(dt, 1),
                                  'cases_per_group': n})
 
     return {'bins': bins, 'run': run}
@@ -67,14 +68,27 @@ ASSUME_FP = ['x86-64 SSE2 floating point without FMA contraction and without -ff
 
 REGISTRY = {}
 
+
+def exact_bins(tier):
+    return [Bin('c01_exact.cpp', 'exact', [], name='c01_exact-exact')]
+
+
+def exact_jobs(which):
+    def f(tier, seed, bs):
+        b = [x for x in bs if x.name == 'c01_exact-exact' and x.path]
+        if not b: return []
+        k, n = (16, 60) if tier == 'quick' else (16, 1500)
+        return [{'bin': b[0], 'n': n, 'seed': seed * 1000 + i, 'tag': 'exact-rational', 'args': ['--arg', 'which=' + which]} for i in range(k)]
+    return f
+
 REGISTRY['C02'] = numeric('C02', 'c02_exp.cpp', nq=30000, nt=1000000,
                           rule='exp: ' + RULE_STRATA, assumptions=ASSUME_FP)
 REGISTRY['C03'] = numeric('C03', 'c03_log.cpp', nq=30000, nt=1000000,
                           rule='log: production routes {independent coefficients in both hemispheres, inverse, exp, exp beyond pi, products of two near-pi '
                                'rotations about almost the same axis (angle 2pi-eps), Random()} x ' + RULE_STRATA, assumptions=ASSUME_FP)
-REGISTRY['C01'] = numeric('C01', 'c01_group.cpp', nq=20000, nt=500000,
+REGISTRY['C01'] = numeric('C01', 'c01_group.cpp', nq=20000, nt=500000, extra_bins=exact_bins, extra_jobs=exact_jobs('C01'),
                           rule='group law: triples (X,Y,Z) of elements built from independently normalised rotation data in both hemispheres or through exp '
-                               '(incl. beyond pi), Y=X and Y=Identity forced periodically, points up to 1e6; ' + RULE_STRATA, assumptions=ASSUME_FP)
+                               '(incl. beyond pi), Y=X and Y=Identity forced periodically, points up to 1e6; EXACT HALF: the same identities with == over an exact-rational scalar (harness/rational.h, __int128 fractions, rational unit quaternions by stereographic projection, both hemispheres) for SE2, SO3, SE3, SE_2_3, SGal3, R3, SO2 (coefficients only) and two bundles; ' + RULE_STRATA, assumptions=ASSUME_FP)
 REGISTRY['C06'] = numeric('C06', 'c06_jac.cpp', nq=8000, nt=200000,
                           rule='tangent Jacobians and adjoints: ' + RULE_STRATA, assumptions=ASSUME_FP + ['float instantiations are held to 1e-2 only (the property states its bound for double)'])
 
@@ -92,9 +106,9 @@ REGISTRY['C04'] = numeric('C04', 'c04_plusminus.cpp', nq=15000, nt=300000,
 ALL_BUNDLES = ['BT0', 'BT1', 'BT2', 'BT3', 'BT4', 'BT5', 'BT6', 'BS0', 'BS1', 'BS2', 'BS3', 'BS4', 'BS5', 'BS6', 'BR0', 'BR1', 'BR2', 'BL0', 'BA', 'BC', 'BD']
 ALL_RN = ['R1', 'R2', 'R3', 'R4', 'R5', 'R6', 'R7', 'R8', 'R9']
 C07_GROUPS = ['SO2', 'SE2', 'SO3', 'SE3', 'SE23', 'SGAL3'] + ALL_RN + ALL_BUNDLES
-REGISTRY['C07'] = numeric('C07', 'c07_algebra.cpp', nq=4000, nt=100000, groups_q=C07_GROUPS, groups_t=C07_GROUPS, float_groups=CORE,
+REGISTRY['C07'] = numeric('C07', 'c07_algebra.cpp', nq=4000, nt=100000, extra_bins=exact_bins, extra_jobs=exact_jobs('C07'), groups_q=C07_GROUPS, groups_t=C07_GROUPS, float_groups=CORE,
                           rule='every generator index 0<=i<DoF of every group / Rn n=1..9 / 21 bundle layouts is enumerated (exhaustive) and compared entry-wise with the documented table, 7 out-of-range '
-                               'indices must raise invalid_argument; hat/vee/bracket/inner identities on random tangent triples (every fifth triple small integers, where every identity must hold exactly); '
+                               'indices must raise invalid_argument; hat/vee/bracket/inner identities on random tangent triples (every fifth triple small integers, where every identity must hold exactly); EXACT HALF: hat, vee, bracket=commutator, antisymmetry, Jacobi, inner=Frobenius, smallAdj, Adj*s=vee(X hat(s) X^-1) with == over the exact-rational scalar; '
                                + RULE_STRATA, assumptions=ASSUME_FP)
 
 REGISTRY['C15'] = numeric('C15', 'c15_interp.cpp', nq=6000, nt=150000, groups_q=CORE + ['BT1', 'BT4'], groups_t=CORE + ['R1', 'R9', 'BT0', 'BT1', 'BT3', 'BT4', 'BA'],
@@ -460,7 +474,7 @@ NOTE_NUM = ('Holds on the executions described in the evidence file, nothing mor
             'gcc 12 / Eigen 3.4, x86-64 SSE2 arithmetic without FMA contraction. Tolerances are fixed in DESIGN.md section 4 (>=10x the worst error observed on the repaired tree).')
 MANIFEST_META = {
     'C01': dict(engine='ref-model differential monitor', design_ref='DESIGN.md 4/C01', technique='differential runtime monitor vs independent long-double model under ASan/UBSan',
-                text='Every compose/inverse/identity/act/transform result of ~2e4 (quick) to 1e6 (thorough) stratified operand triples per group is compared with the product / inverse / action of reference matrices built from the coefficient vectors; held-on-observed-executions assurance, which is what a pure numerical function over a continuous domain admits.',
+                text='Every compose/inverse/identity/act/transform result of ~2e4 (quick) to 1e6 (thorough) stratified operand triples per group is compared with the product / inverse / action of reference matrices built from the coefficient vectors; held-on-observed-executions assurance, which is what a pure numerical function over a continuous domain admits. The exact clause is observed with == over an exact-rational scalar (rational unit quaternions of both hemispheres) that throws on any transcendental or rounding step.',
                 note=NOTE_NUM),
     'C02': dict(engine='ref-model differential monitor', design_ref='DESIGN.md 4/C02', technique='differential runtime monitor vs independent long-double matrix exponential under ASan/UBSan',
                 text='t.exp() is compared with a scaling-and-squaring Taylor expm of the reference hat(t) over the full rotation-magnitude axis (0, denormal, every candidate switch-over +-ulp, dense log sweep, near pi, beyond pi) x independent linear magnitude 0..1e6, all groups, double and float; hat and generators are compared exactly.',
@@ -476,7 +490,7 @@ MANIFEST_META = {
                 note=NOTE_NUM + ' Samples within ~3e-6 of the cut locus with |time*velocity| >= 1e8 can be oracle-unresolved; they are counted in the evidence, not judged.'),
     'C07': dict(engine='ref-model differential monitor', design_ref='DESIGN.md 4/C07', technique='exhaustive enumeration of generator indices + runtime monitor of algebra identities vs typed-in generator tables',
                 text='All generator indices of all groups, R1..R9 and 21 bundle layouts are enumerated and compared entry-wise (exact) with the documented tables; out-of-range indices must raise invalid_argument; hat/vee/bracket/inner/InnerWeights identities are checked on random tangents, exactly on small-integer tangents (where floating point is exact), within a few ulp otherwise.',
-                note=NOTE_NUM + ' The exact-arithmetic clause is observed on integer-valued tangents in double (all operations exact), see DESIGN.md for the status of the exact-rational scalar.'),
+                note=NOTE_NUM + ' The exact-arithmetic clause is observed twice: on integer-valued tangents in double (all operations exact) and with == over the exact-rational scalar of harness/rational.h (__int128 fractions; overflow = inconclusive, counted).'),
     'C06': dict(engine='ref-model differential monitor', design_ref='DESIGN.md 4/C06', technique='runtime monitor vs series-defined Jr (augmented expm of ad), model Adj/ad',
                 text='rjac/ljac are compared with sum_k (-ad)^k/(k+1)! evaluated as a block of expm([[-ad,I],[0,0]]) (no small-angle case analysis in the oracle), the inverses with the model inverse and as products, Adj/adj/smallAdj with their definitions on the reference matrices, at the 1e-6 relative bound the property states, densely in (sqrt(eps),1e-2) where the defects were.',
                 note=NOTE_NUM),
